@@ -155,6 +155,52 @@ def run_realize(cases, cap, jobs=None, timeout=3600, tag="rz"):
     return verdicts, goals, stats, finished
 
 
+def run_refine(specs, pick=3, jobs=None, timeout=1800, tag="rf"):
+    """spec/SFSRefine.tla on hand-built specifications (JSON as the back-ends read it): every sequence SFSMachine accepts within a
+    tight bound, executed concretely, must give a result some admissible schedule of the denotation gives.
+    -> ({id: [[g, clause, ...]]}, {id: goal states}, stats, finished ids)"""
+    cases = []
+    for i, js in enumerate(specs):
+        ps = proj_sfs_sem(js)
+        n, d = len(ps["ins"]), len(ps["src"])
+        cases.append({"id": i + 1, "sfs": ps, "depth": d, "b0": n + 4, "bs": min(d + n + 1, 5), "pick": pick})
+    if not cases:
+        return {}, {}, {"states": 0, "transitions": 0, "jvms": 0, "wall": 0.0, "timeouts": 0}, set()
+    jobs = jobs or common.NCPU
+    ws = [(len(c["sfs"]["ins"]) + 2 * c["depth"] + 2) ** c["b0"] for c in cases]
+    shards = common.shard_by_weight(cases, ws, min(len(cases), jobs))
+    envs = []
+    for i, sh in enumerate(shards):
+        p = os.path.join(common.workdir(), "%s_cases_%d.json" % (tag, i))
+        common.write_json(p, {"seed": common.seed(), "cases": sh})
+        envs.append({"CASES": p})
+    results = common.run_tlc_shards("SFSRefine", "SFSRefine.cfg", envs, timeout=timeout, heap="3g", jobs=jobs, tag=tag)
+    verdicts, goals, finished = {}, {}, set()
+    stats = {"states": 0, "transitions": 0, "jvms": len(results), "wall": 0.0, "timeouts": 0, "ambiguous_denotations": 0}
+    for r, sh in zip(results, shards):
+        stats["states"] += r.distinct
+        stats["transitions"] += r.generated
+        stats["wall"] = max(stats["wall"], r.wall)
+        for t in r.tagged("VERDICT"):
+            lst = verdicts.setdefault(t[1], [])
+            if t[2:] not in lst:
+                lst.append(t[2:])
+        stats["unordered"] = stats.get("unordered", 0) + len({t[1] for t in r.tagged("UNORDERED")})
+        amb = set()
+        for t in r.tagged("GOAL"):
+            goals[t[1]] = goals.get(t[1], 0) + 1
+            if t[3] > 1:
+                amb.add(t[1])
+        stats["ambiguous_denotations"] += len(amb)
+        if r.ok:
+            finished |= {c["id"] for c in sh}
+        elif r.rc == -9:
+            stats["timeouts"] += 1
+        else:
+            raise common.MachineryError("SFSRefine TLC run failed:\n" + r.out[-3000:])
+    return verdicts, goals, stats, finished
+
+
 def classify(vlist):
     """completion mismatches are violations; 'unordered' alone (two operations enabled together that do not
     commute on an intermediate state, while every schedule still ends in the block's final state) is a diagnostic"""
